@@ -24,6 +24,7 @@ func GenerateJ5S(r *vh.Rand) (c *Case, err error) {
 	}()
 	cfg := j5sgen.DefaultConfig()
 	cfg.Services, cfg.Topics, cfg.PFiles = false, false, false
+	cfg.MaxFields, cfg.MaxDepth, cfg.MaxPackages = 5, 3, 2
 	if r.Chance(40) {
 		cfg.Imports, cfg.MaxFiles = false, 1
 	}
